@@ -315,6 +315,31 @@ fn cp_values(ig: &Ig, t: f64, v: f64, n: &[f64]) -> (f64, f64) {
     }
 }
 
+/// molar Gibbs energy / (R T) of the pure ideal gas at the reference state of the model
+/// (Joback: T0 = 298.15 K, p0 = 1e5 Pa, i.e. rho = p0 A^3 / (k_B T0); DIPPR: T0, rho = 1/T0 per A^3), where it must vanish
+fn reference_gibbs(ig: &Ig) -> f64 {
+    let t0 = 298.15;
+    let n = 7.0;
+    let rho = match ig {
+        Ig::J(_) => 1.0e5 * 1e-30 / (1.38064852e-23 * t0),
+        Ig::D(_) => 1.0 / t0,
+    };
+    let tq = Temperature::from_reduced(t0);
+    let vq = Volume::from_reduced(n / rho);
+    let nq = Moles::from_reduced(arr1(&[n]));
+    let g = match ig {
+        Ig::J(m) => {
+            let eos = Arc::new(EquationOfState::ideal_gas(m.clone()));
+            State::new_nvt(&eos, tq, vq, &nq).unwrap().molar_gibbs_energy(Contributions::IdealGas).to_reduced()
+        }
+        Ig::D(m) => {
+            let eos = Arc::new(EquationOfState::ideal_gas(m.clone()));
+            State::new_nvt(&eos, tq, vq, &nq).unwrap().molar_gibbs_energy(Contributions::IdealGas).to_reduced()
+        }
+    };
+    g / t0
+}
+
 fn with_ig<T>(ig: &Ig, fj: impl FnOnce(&Joback) -> T, fd: impl FnOnce(&Dippr) -> T) -> T {
     match ig {
         Ig::J(m) => fj(m),
@@ -346,6 +371,7 @@ fn record_cases(recs: &[(String, Rec)], nt: usize, rng: &mut Rng, file: &mut Str
                 }
             };
             let (cp_state, cp_direct) = cp_values(&ig, t, v, &n);
+            let g_ref = if k == 0 { Some(reference_gibbs(&ig)) } else { None };
             let ts = dy(t);
             let tol_l = 1e-9 * (1.0 + lam.abs());
             let tol_c = 1e-9 * cp_direct.abs().max(1.0);
@@ -355,7 +381,7 @@ fn record_cases(recs: &[(String, Rec)], nt: usize, rng: &mut Rng, file: &mut Str
                 goal(file, &format!("cpD_{id}"), &format!("({} * Q_RGAS)", rec.cp_over_r(&ts)), cp_direct, tol_c, "c10_lam.");
             }
             cases.push(json!({"id": id, "record": name, "model": rec.json(), "kind": rec.kind(), "T": t, "V": v, "N": n,
-                "ln_lambda3": lam, "cp_state": cp_state, "cp_direct": cp_direct, "tol_lam": tol_l, "tol_cp": tol_c,
+                "ln_lambda3": lam, "g_ref_over_RT": g_ref, "cp_state": cp_state, "cp_direct": cp_direct, "tol_lam": tol_l, "tol_cp": tol_c,
                 "goals": [format!("lam_{id}"), format!("cpS_{id}"), format!("cpD_{id}")]}));
         }
     }
